@@ -160,6 +160,13 @@ func (n *constructorNode) Call(c containerStore) (err error) {
 		}
 	}
 
+	if n.called {
+		// Building the arguments can re-enter this constructor (through a
+		// decorator that consumes one of its results) and run it to
+		// completion; it must not run a second time.
+		return nil
+	}
+
 	if n.callback != nil {
 		start := c.clock().Now()
 		// Wrap in separate func to include PanicErrors
